@@ -29,6 +29,7 @@ type ChainCfg struct {
 	Eager   bool   `json:"eager"`    // driver issue policy
 	Full    bool   `json:"full"`     // build inside a real simulation.Simulation
 	DRAMQ   int    `json:"dramq,omitempty"` // 0 = preset queue sizes, 1 = tiny queues (2 transactions, 2 commands)
+	Ways    int    `json:"ways,omitempty"`  // cache associativity (0 = CacheWays)
 }
 
 // Name is a compact label.
@@ -37,7 +38,11 @@ func (c ChainCfg) Name() string {
 	for _, st := range c.Stages {
 		s += st + ">"
 	}
-	return fmt.Sprintf("%s%sx%d/b%d/l%d/m%d/e%v", s, c.Memory, c.NumMem, c.PortBuf, c.Lat, c.MSHR, c.Eager)
+	w := ""
+	if c.Ways != 0 {
+		w = fmt.Sprintf("/w%d", c.Ways)
+	}
+	return fmt.Sprintf("%s%sx%d/b%d/l%d/m%d/e%v%s", s, c.Memory, c.NumMem, c.PortBuf, c.Lat, c.MSHR, c.Eager, w)
 }
 
 // Chain is a built hierarchy.
@@ -94,6 +99,10 @@ func BuildChain(cfg ChainCfg, ops []MemOp) *Chain {
 	ch := &Chain{Env: env, Cfg: cfg}
 	if cfg.NumMem < 1 {
 		cfg.NumMem = 1
+	}
+	ways := CacheWays
+	if cfg.Ways > 0 {
+		ways = cfg.Ways
 	}
 	conn := directconnection.MakeBuilder().WithRegistrar(env).Build("Conn")
 	ch.Conn = conn
@@ -166,8 +175,8 @@ func BuildChain(cfg ChainCfg, ops []MemOp) *Chain {
 		switch kind {
 		case "wb":
 			spec := writeback.DefaultSpec()
-			spec.TotalByteSize = LineSize * CacheSets * CacheWays
-			spec.WayAssociativity = CacheWays
+			spec.TotalByteSize = uint64(LineSize * CacheSets * ways)
+			spec.WayAssociativity = ways
 			spec.Log2BlockSize = 6
 			spec.NumMSHREntry = cfg.MSHR
 			spec.NumReqPerCycle = 1 + cfg.Lat%2
@@ -182,8 +191,8 @@ func BuildChain(cfg ChainCfg, ops []MemOp) *Chain {
 			comp = c
 		case "wt-around", "wt-evict", "wt-through":
 			spec := writethroughcache.DefaultSpec()
-			spec.TotalByteSize = LineSize * CacheSets * CacheWays
-			spec.WayAssociativity = CacheWays
+			spec.TotalByteSize = uint64(LineSize * CacheSets * ways)
+			spec.WayAssociativity = ways
 			spec.Log2BlockSize = 6
 			spec.NumMSHREntry = cfg.MSHR
 			spec.NumReqPerCycle = 1 + cfg.Lat%2
